@@ -1,22 +1,25 @@
 --------------------------- MODULE HeaderMirrorMon ---------------------------
-(* Monitor for C12 part (b): evaluates HeaderMirrorDefs!Holds (Agreement,     *)
-(* verdict) and equality with HeaderMirrorDefs!Expected (strict / drift) on   *)
-(* calls made by the real client through the real streamable transport to the *)
-(* real stateless server.  One observation per line:                          *)
-(*   [c |-> case, o |-> [accepted, same, code, hdr, own, sibok]]              *)
+(* Monitor for C12 part (b): evaluates HeaderMirrorDefs!Holds (Agreement for  *)
+(* an informed client, verdict) and membership in HeaderMirrorDefs!ExpectedSet *)
+(* (strict / drift) on calls made by the real client through the real         *)
+(* streamable transport to the real stateless server after the case's         *)
+(* history has been played on them.  One observation per line:                *)
+(*   [c |-> case (with hist), o |-> [accepted, same, code, hdr, own, sibok, via]] *)
 EXTENDS VerifTrace, FiniteSets
 M == INSTANCE HeaderMirrorDefs
 
 VARIABLE l
 MInit == l = 1 /\ MarkInit
-Case(e) == [depth |-> e.c.depth, ty |-> e.c.ty, val |-> e.c.val, hname |-> e.c.hname, nsib |-> e.c.nsib]
-Out(e) == [accepted |-> e.o.accepted, same |-> e.o.same, code |-> e.o.code, hdr |-> e.o.hdr, own |-> e.o.own, sibok |-> e.o.sibok]
+Hist(e) == [ttl |-> e.c.hist.ttl, page |-> e.c.hist.page, sub |-> e.c.hist.sub, steps |-> e.c.hist.steps]
+Case(e) == [depth |-> e.c.depth, ty |-> e.c.ty, val |-> e.c.val, hname |-> e.c.hname, nsib |-> e.c.nsib, hist |-> Hist(e)]
+Out(e) == [accepted |-> e.o.accepted, same |-> e.o.same, code |-> e.o.code, hdr |-> e.o.hdr, own |-> e.o.own, sibok |-> e.o.sibok,
+           via |-> e.o.via]
 MNext == /\ l <= NLines /\ l' = l + 1
          /\ LET e == TraceLog[l]
                 c == Case(e)
                 o == Out(e)
             IN /\ Check(l, "Agreement", M!Holds(c, o))
-               /\ Check(l, "drift", o = M!Expected(c))
+               /\ Check(l, "drift", o \in M!ExpectedSet(c))
 MSpec == MInit /\ [][MNext]_l
 MMark == MarkAt(l)
 MAccepted == Accepted
